@@ -1,6 +1,9 @@
 import IpaVerif.Model.Util
 import IpaVerif.Model.Serde
 import IpaVerif.Model.Ristretto
+import IpaVerif.Model.Transpose
+import IpaVerif.Model.ReportPack
+import IpaVerif.Generated.C09Wire
 import IpaVerif.Generated.PrimeFields
 import IpaVerif.Generated.C09Serde
 /-!
@@ -21,7 +24,26 @@ Requests of the serde suites (`c09_small`, `c09_large`):
 namespace IpaVerif.Driver.C09
 open IpaVerif.Util IpaVerif.Serde
 
+def rawTy (name : String) (bytes : Nat) : Ty := .bits { name := name, bits := 8 * bytes, bytes := bytes, fallible := false }
+
+def bitsByName (n : String) : Option Ty := (IpaVerif.Generated.bitTypes.find? (·.name == n)).map .bits
+
+open IpaVerif.Generated.Wire in
+/-- composite wire types with their own `Serializable` impl -/
+def namedTy (n : String) : Option Ty :=
+  if n == "Hash" then some (rawTy "Hash" 32)
+  else if n == "UniqueTag" then some (rawTy "UniqueTag" uniqueTagBytes)
+  else if n == "HashArr" then some (.arr maxProofRecursion (rawTy "Hash" 32))
+  else if n == "ProofDiff" then some (.arr (maxProofRecursion + 1) (.prime IpaVerif.Generated.fp61))
+  else if n == "ProofArr" then some (.arr proofArrayLen (.prime IpaVerif.Generated.fp61))
+  else if n == "Prf" then do
+    let v ← bitsByName "BA3"
+    let bk ← bitsByName "BA8"
+    pure (.pair (rawTy "u64" prfMatchKeyBytes) (.pair (.share v) (.share bk)))
+  else none
+
 def leafTy (n : String) : Option Ty :=
+  if let some t := namedTy n then some t else
   if n == "Boolean" then some .boolean
   else if n == "Fp25519" then some .fp25519
   else match IpaVerif.Generated.primeFields.find? (·.name == n) with
@@ -88,9 +110,182 @@ def rp (op : String) (args : List String) : Option String :=
       pure (if IpaVerif.Ristretto.valid bs then s!"ok {bytesHex bs}" else "err")
   | _, _ => none
 
+/-! ### transposes (`c09_transpose`)
+
+* `c09.tr <kind> <M> <N> <form> <left-hex> <right-hex|->` — `kind` names the macro
+  (`ba_to_ba`, `bool_to_ba`, `bool_to_ba_small`, `ba_to_bool`, `ba_fn_to_bool`, `ba_to_bool_small`), the
+  source is an `M × N` bit matrix given as rows of `⌈N/8⌉` bytes (left and right share separately);
+  `form` is `arr` (the array impl), `shim` (Vec / BitDecomposed destination) or `shimvec` (`&Vec`
+  source); response `<left rows> <right rows>` or `err <expected> <actual>` (LengthError).
+* `c09.tr aggregation_transpose <M> <N> <B> <left-hex> <right-hex>` — `B` matrices, bit-major.
+* `c09.tr-list` — the impls known (from the macro invocations). -/
+
+open IpaVerif.Transpose in
+def chunks (n : Nat) (bs : List Nat) : List (List Nat) :=
+  if n = 0 then [] else
+  let rec go : Nat → List Nat → List (List Nat)
+    | 0, _ => []
+    | fuel + 1, bs => if bs.isEmpty then [] else bs.take n :: go fuel (bs.drop n)
+  go (bs.length + 1) bs
+
+def rowsHex (m : List (List Nat)) : String := bytesHex m.flatten
+
+def findImpl (kind : String) (M N : Nat) : Option Nat :=
+  (IpaVerif.Generated.Transpose.impls.find? (fun e => e.1 == kind && e.2.1 == M && e.2.2.1 == N)).map (·.2.2.2)
+
+/-- which shim forms take a fallible (`LengthError`) source -/
+def fallibleForm (kind form : String) : Bool :=
+  (form == "shim" && (kind == "bool_to_ba" || kind == "bool_to_ba_small")) || (form == "shimvec" && kind == "ba_to_bool_small")
+
+def trOne (f : IpaVerif.Transpose.Rows → IpaVerif.Transpose.Rows) (l r : String) (rowBytes : Nat) : Option String := do
+  let lb ← parseHexBytes l
+  if r == "-" then pure (rowsHex (f (chunks rowBytes lb))) else
+  let rb ← parseHexBytes r
+  pure s!"{rowsHex (f (chunks rowBytes lb))} {rowsHex (f (chunks rowBytes rb))}"
+
+def trDispatch (impl : Nat → Nat → Nat → Bool → IpaVerif.Transpose.Rows → IpaVerif.Transpose.Rows)
+    (args : List String) : Option String :=
+  match args with
+  | [kind, ms, ns, form, l, r] => do
+      let M ← ms.toNat?
+      let N ← ns.toNat?
+      let kernel ← findImpl kind M N
+      let rowBytes := (N + 7) / 8
+      if kind == "aggregation_transpose" then
+        let B ← form.toNat?
+        let lb ← parseHexBytes l
+        let rb ← parseHexBytes r
+        let per := M * rowBytes
+        let f := fun (bs : List Nat) => (chunks per bs).map (fun mat => impl kernel M N true (chunks rowBytes mat))
+        if lb.length != B * per || rb.length != B * per then none else
+        pure s!"{bytesHex ((f lb).map List.flatten).flatten} {bytesHex ((f rb).map List.flatten).flatten}"
+      else
+        let lb ← parseHexBytes l
+        let nrows := lb.length / rowBytes
+        if nrows != M then
+          (if fallibleForm kind form then pure s!"err {M} {nrows}" else none)
+        else trOne (impl kernel M N (form != "arr")) l r rowBytes
+  | _ => none
+
+open IpaVerif.Transpose in
+/-- the model of the code: tiling drivers + kernels; the array form of the padded variant keeps all `8⌈N/8⌉` rows -/
+def trModel (kernel M N : Nat) (shim : Bool) (m : Rows) : Rows :=
+  if kernel == 0 && !shim then tiled8 m ((M + 7) / 8) ((N + 7) / 8) else transposeImpl kernel M N m
+
+open IpaVerif.Transpose in
+/-- the specification: `refT m i j = m j i` -/
+def trSpec (kernel M N : Nat) (shim : Bool) (m : Rows) : Rows :=
+  if kernel == 0 && !shim then refT m M ((N + 7) / 8 * 8) else refT m M N
+
+def implList : String :=
+  String.intercalate "," (IpaVerif.Generated.Transpose.impls.map (fun e => s!"{e.1}:{e.2.1}x{e.2.2.1}"))
+
+/-! ### composite wire types (`c09_wire`)
+
+* `c09.vec <Ty> <leaves>;<leaves>;…|-` — `Vec<T>::to_bytes` (query result layout)
+* `c09.pack hyb|agg <BK> <V> lr <field leaves…>` — `Shuffleable::left` / `right`; response `<l> <r>` (hex ints)
+* `c09.pack hyb|agg <BK> <V> new <l> <r>` — `Shuffleable::new`; response the fields `mk.l:mk.r:v.l:v.r:bk.l:bk.r`
+* `c09.info imp|conv en <fields…>` / `de <hex>` — `Hybrid*Info::to_bytes` / `from_bytes`
+* `c09.rep imp|conv en <fields…>` / `de <hex>` — plaintext report layouts with BK = BA8, V = BA3
+Rejections (error or panic) of `from_bytes` / `deserialize` on malformed input are reported as `rej`. -/
+
+open IpaVerif.ReportPack
+
+def bitsOf (n : String) : Option Nat := (IpaVerif.Generated.bitTypes.find? (·.name == n)).map (·.bits)
+
+def hexNats (l : List String) : Option (List Nat) := l.mapM parseHexNat
+
+def packWidths (kind bk v : String) : Option (List Nat × Nat) := do
+  let b ← bitsOf bk
+  let w ← bitsOf v
+  if kind == "hyb" then pure ([64, w, b], IpaVerif.Generated.Wire.hybridShareBits)
+  else if kind == "agg" then pure ([w, b], IpaVerif.Generated.Wire.aggShareBits)
+  else none
+
+def pack (args : List String) : Option String :=
+  match args with
+  | kind :: bk :: v :: "lr" :: fields => do
+      let (ws, share) ← packWidths kind bk v
+      let fs ← hexNats fields
+      if fs.length != 2 * ws.length then none else
+      if !fits ws share then pure "panic" else
+      let ls := (List.range ws.length).map (fun i => fs.getD (2 * i) 0)
+      let rs := (List.range ws.length).map (fun i => fs.getD (2 * i + 1) 0)
+      pure s!"{natHex (joinFields (ws.zip ls))} {natHex (joinFields (ws.zip rs))}"
+  | [kind, bk, v, "new", l, r] => do
+      let (ws, share) ← packWidths kind bk v
+      let l ← parseHexNat l
+      let r ← parseHexNat r
+      if !fits ws share then pure "panic" else
+      let ls := splitFields ws l
+      let rs := splitFields ws r
+      pure (showLeaves ((ls.zip rs).flatMap (fun (a, b) => [a, b])))
+  | _ => none
+
+def showOutcome {α : Type} (o : Outcome α) (f : α → String) : String :=
+  match o with
+  | .ok v => "ok " ++ f v
+  | _ => "rej"
+
+def parseConv (args : List String) : Option ConvInfo :=
+  match args with
+  | [k, d, ts, e, sv] => do
+      pure { keyId := ← parseHexNat k, domain := ← parseHexBytes d, timestamp := ← parseHexNat ts,
+             epsilon := ← parseHexNat e, sensitivity := ← parseHexNat sv }
+  | _ => none
+
+def showConv (c : ConvInfo) : String :=
+  s!"{natHex c.keyId} {bytesHex c.domain} {natHex c.timestamp} {natHex c.epsilon} {natHex c.sensitivity}"
+
+def info (args : List String) : Option String :=
+  match args with
+  | ["imp", "en", k] => do pure (bytesHex (impInfoEnc (← parseHexNat k)))
+  | ["imp", "de", h] => do
+      pure (showOutcome (impInfoDec (← parseHexBytes h)) (fun k => s!"{natHex k} {bytesHex (impInfoEnc k)}"))
+  | "conv" :: "en" :: rest => do pure (bytesHex (convInfoEnc (← parseConv rest)))
+  | ["conv", "de", h] => do
+      pure (showOutcome (convInfoDec (← parseHexBytes h)) (fun c => s!"{showConv c} {bytesHex (convInfoEnc c)}"))
+  | _ => none
+
+def rep (args : List String) : Option String := do
+  let bk ← bitsByName "BA8"
+  let v ← bitsByName "BA3"
+  match args with
+  | ["imp", "en", mkl, mkr, xl, xr, k] => do
+      let x ← build bk [← parseHexNat xl]
+      let y ← build bk [← parseHexNat xr]
+      pure (bytesHex (reportEnc bk impInfoEnc ((← parseHexNat mkl, ← parseHexNat mkr), x.1, y.1, ← parseHexNat k)))
+  | ["imp", "de", h] => do
+      let bs ← parseHexBytes h
+      pure (showOutcome (reportDec bk impInfoDec bs) (fun r =>
+        s!"{showLeaves ([r.1.1, r.1.2] ++ leaves bk r.2.1 ++ leaves bk r.2.2.1)} {natHex r.2.2.2} {bytesHex (reportEnc bk impInfoEnc r)}"))
+  | "conv" :: "en" :: mkl :: mkr :: xl :: xr :: rest => do
+      let x ← build v [← parseHexNat xl]
+      let y ← build v [← parseHexNat xr]
+      pure (bytesHex (reportEnc v convInfoEnc ((← parseHexNat mkl, ← parseHexNat mkr), x.1, y.1, ← parseConv rest)))
+  | ["conv", "de", h] => do
+      let bs ← parseHexBytes h
+      pure (showOutcome (reportDec v convInfoDec bs) (fun r =>
+        s!"{showLeaves ([r.1.1, r.1.2] ++ leaves v r.2.1 ++ leaves v r.2.2.1)} {showConv r.2.2.2} {bytesHex (reportEnc v convInfoEnc r)}"))
+  | _ => none
+
+def vecToBytes (t : Ty) (arg : String) : Option String := do
+  if arg == "-" then pure "-" else
+  let rows ← (arg.splitOn ";").mapM (fun r => do
+    let ls ← parseLeaves r
+    let (v, rest) ← build t ls
+    if rest.isEmpty then pure v else none)
+  pure (bytesHex (encAll (codecOf t) rows))
+
 /-- `some response` if the request belongs to this property, else `none`. -/
 def handle (toks : List String) : Option String :=
   match toks with
+  | ["c09.vec", ty, arg] => some ((do vecToBytes (← parseTy ty) arg).getD "bad-request")
+  | "c09.pack" :: args => some ((pack args).getD "bad-request")
+  | "c09.info" :: args => some ((info args).getD "bad-request")
+  | "c09.rep" :: args => some ((rep args).getD "bad-request")
+  | ["c09.tr-list"] => some implList
+  | "c09.tr" :: args => some ((trDispatch trModel args).getD "bad-request")
   | "c09.rp" :: op :: args => some ((rp op args).getD "bad-request")
   | op :: ty :: args =>
     if op == "c09.blk" || op == "c09.de" || op == "c09.en" then
@@ -112,6 +307,7 @@ def leafSpecs : Ty → List (Nat × Nat)
   | .fp25519 => [(32, 2 ^ 252 + 27742317777372353535851937790883648493)]
   | .share t => leafSpecs t ++ leafSpecs t
   | .arr n t => (List.replicate n (leafSpecs t)).flatten
+  | .pair a b => leafSpecs a ++ leafSpecs b
 
 def leInt (bs : List Nat) : Nat := bs.foldr (fun b acc => b + 256 * acc) 0
 
@@ -162,6 +358,45 @@ def serdeOracle (op : String) (t : Ty) (args : List String) (impl : String) : Op
 /-- Property oracle on (request, implementation response): `some "holds"`, `some "fails <why>"`, or `none`. -/
 def oracle (toks : List String) (impl : String) : Option String :=
   match toks with
+  | ["c09.vec", ty, arg] =>
+      -- the result layout is the concatenation of the fixed-size encodings of the rows
+      match parseTy ty with
+      | some t =>
+        if arg == "-" then verdict (impl == "-") "empty result must be empty" else
+        match (arg.splitOn ";").mapM parseLeaves with
+        | some rows =>
+          let specs := leafSpecs t
+          let want := (rows.map (fun ls => ((ls.zip specs).map (fun (v, (sz, _)) => natBytes v sz)).flatten)).flatten
+          verdict (impl == bytesHex want) "Vec<T>::to_bytes must be the concatenation of the rows' encodings"
+        | none => some "unknown"
+      | none => some "unknown"
+  | "c09.pack" :: kind :: bk :: v :: "lr" :: fields =>
+      -- spec: share = Σ fieldᵢ · 2^(offsetᵢ), offsets = running sum of the widths
+      match packWidths kind bk v, hexNats fields with
+      | some (ws, share), some fs =>
+        if ws.foldl (· + ·) 0 > share then verdict (impl.startsWith "panic") "fields wider than the share type must not be packed silently" else
+        let offs := (List.range ws.length).map (fun i => (ws.take i).foldl (· + ·) 0)
+        let side := fun (o : Nat) => (List.range ws.length).foldl (fun acc i => acc + fs.getD (2 * i + o) 0 * 2 ^ offs.getD i 0) 0
+        verdict (impl == s!"{natHex (side 0)} {natHex (side 1)}") "left()/right() must place field i at the bit offset Σ_{j<i} width j"
+      | _, _ => some "unknown"
+  | ["c09.pack", kind, bk, v, "new", l, r] =>
+      match packWidths kind bk v, parseHexNat l, parseHexNat r with
+      | some (ws, share), some l, some r =>
+        if ws.foldl (· + ·) 0 > share then verdict (impl.startsWith "panic") "fields wider than the share type must not be unpacked silently" else
+        let offs := (List.range ws.length).map (fun i => (ws.take i).foldl (· + ·) 0)
+        let f := fun (x i : Nat) => x / 2 ^ offs.getD i 0 % 2 ^ ws.getD i 0
+        let want := showLeaves ((List.range ws.length).flatMap (fun i => [f l i, f r i]))
+        verdict (impl == want) "new(l, r) must read field i from the bit offset Σ_{j<i} width j"
+      | _, _, _ => some "unknown"
+  | "c09.info" :: _ :: "de" :: [h] | "c09.rep" :: _ :: "de" :: [h] =>
+      -- accepted ⇒ the re-encoding (last token of the response) is the input
+      if impl == "rej" then some "unknown"
+      else verdict (impl.startsWith "ok " && (impl.splitOn " ").getLast? == some h) "an accepted byte string must be the canonical encoding of the decoded value (no trailing or missing bytes)"
+  | ["c09.tr-list"] => verdict (impl == implList) "the harness and the source disagree on the list of transpose impls"
+  | "c09.tr" :: args =>
+      match trDispatch trSpec args with
+      | some want => verdict (impl == want) "destination bit (i, j) must equal source bit (j, i) (or LengthError {expected, actual} for a source of the wrong height)"
+      | none => some "unknown"
   | ["c09.rp", "de", h] =>
       -- accepted ⇒ the re-encoding is the input (only canonical encodings are accepted); whether a
       -- rejected string is really non-canonical is dalek's business (hypothesis) — the model above
